@@ -409,7 +409,7 @@ func wshsDirect(seed uint64, tier string, args []string, w *bufio.Writer) {
 		}
 	}
 	if secondSession {
-		histories := []string{"open-fragment", "failed-blocking-write", "long-response-head"}
+		histories := []string{"open-fragment", "failed-blocking-write", "long-response-head", "failed-async-write"}
 		for _, hist := range histories {
 			hist := hist
 			func() {
@@ -449,6 +449,15 @@ func wshsDirect(seed uint64, tier string, args []string, w *bufio.Writer) {
 					_ = ws.CloseNextLayer()
 					_ = ws.Write([]byte("late"), websocket.TypeText)
 					_ = ws.Write([]byte("later"), websocket.TypeText)
+				case "failed-async-write":
+					// the asynchronous twin: the write's completion reports the dead transport
+					_ = ws.CloseNextLayer()
+					fin := 0
+					ws.AsyncWrite([]byte("late"), websocket.TypeText, func(error) { fin++ })
+					ws.AsyncWrite([]byte("later"), websocket.TypeText, func(error) { fin++ })
+					for dl := time.Now().Add(time.Second); fin < 2 && time.Now().Before(dl); {
+						_ = ioc.RunOneFor(5 * time.Millisecond)
+					}
 				default:
 					_ = ws.CloseNextLayer()
 				}
@@ -459,6 +468,8 @@ func wshsDirect(seed uint64, tier string, args []string, w *bufio.Writer) {
 					trail = append(trail, 0x81, 100)
 					trail = append(trail, bytes.Repeat([]byte{byte('A' + i%26)}, 100)...)
 				}
+				// ... and a Ping last: its Pong is queued when the client reads it and goes out with the writes
+				trail = append(trail, 0x89, 3, 'h', 'b', '2')
 				ln2, err := net.Listen("tcp", "127.0.0.1:0")
 				if err != nil {
 					return
@@ -509,6 +520,11 @@ func wshsDirect(seed uint64, tier string, args []string, w *bufio.Writer) {
 						return
 					}
 				}
+				if f, err := ws.NextFrame(); err != nil || !f.Opcode().IsPing() || string(f.Payload()) != "hb2" {
+					fail("rehandshake", "second session after %s: the Ping behind the 60 messages: err=%v", hist, err)
+					<-got
+					return
+				}
 				d1, d2 := false, false
 				ws.AsyncWrite([]byte("first message of the second session"), websocket.TypeText, func(error) { d1 = true })
 				ws.AsyncWrite([]byte("second message of the second session"), websocket.TypeText, func(error) { d2 = true })
@@ -519,10 +535,17 @@ func wshsDirect(seed uint64, tier string, args []string, w *bufio.Writer) {
 				_ = ws.Close(websocket.CloseNormal, "done")
 				frames := <-got
 				var texts []string
+				pong := false
 				for _, f := range frames {
 					if f.op == 1 {
 						texts = append(texts, string(f.payload))
 					}
+					if f.op == 10 && string(f.payload) == "hb2" {
+						pong = true
+					}
+				}
+				if !pong {
+					fail("second-session-close", "second session after %s: the client read a Ping \"hb2\" and then wrote two messages and closed; no Pong with that payload among the %d frames the server received", hist, len(frames))
 				}
 				if !d1 || !d2 || len(texts) != 2 || texts[0] != "first message of the second session" || texts[1] != "second message of the second session" {
 					fail("rehandshake", "second session after %s: two AsyncWrite calls back to back (callbacks ran: %v %v) put %d frames on the wire, text payloads %q", hist, d1, d2, len(frames), texts)
@@ -530,6 +553,76 @@ func wshsDirect(seed uint64, tier string, args []string, w *bufio.Writer) {
 				_ = ws.CloseNextLayer()
 			}()
 		}
+	}
+
+	// 2f. a handshake that fails leaves nothing behind that a later handshake of the same Stream could pick up: an address that is
+	// refused before anything is dialled (not a ws:// / wss:// URL) is refused again when it is given again, blocking and
+	// asynchronous, although a conforming server listens there; the same Stream then handshakes normally with the ws:// form.
+	if secondSession {
+		func() {
+			defer func() {
+				if p := recover(); p != nil {
+					fail("rehandshake", "repeated handshake with a refused address panicked: %v", p)
+				}
+			}()
+			for _, scheme := range []string{"http://", "https://", "tcp://"} {
+				ws, err := websocket.NewWebsocketStream(ioc, nil, websocket.RoleClient)
+				if err != nil {
+					return
+				}
+				ln, err := net.Listen("tcp", "127.0.0.1:0")
+				if err != nil {
+					return
+				}
+				go func() {
+					for {
+						c, err := ln.Accept()
+						if err != nil {
+							return
+						}
+						go func(c net.Conn) {
+							defer c.Close()
+							if upgradeWith(c, 0, nil) {
+								time.Sleep(300 * time.Millisecond)
+							}
+						}(c)
+					}
+				}()
+				addr := scheme + ln.Addr().String() + "/"
+				var errs []error
+				var states []websocket.StreamState
+				for i := 0; i < 3; i++ {
+					if i == 1 {
+						done := false
+						var aerr error
+						ws.AsyncHandshake(addr, func(err error) { done, aerr = true, err })
+						for dl := time.Now().Add(2 * time.Second); !done && time.Now().Before(dl); {
+							_ = ioc.RunOneFor(5 * time.Millisecond)
+						}
+						if !done {
+							aerr = nil
+						}
+						errs = append(errs, aerr)
+					} else {
+						errs = append(errs, ws.Handshake(addr))
+					}
+					states = append(states, ws.State())
+				}
+				if errs[0] != nil {
+					for i := 1; i < 3; i++ {
+						if errs[i] == nil || states[i] == websocket.StateActive {
+							fail("rehandshake", "Handshake(%q) was refused (%v); the same call repeated on the same Stream (attempt %d): err=%v state=%v - a failed handshake must leave the stream as a fresh one would be", addr, errs[0], i+1, errs[i], states[i])
+							break
+						}
+					}
+				}
+				if err := ws.Handshake("ws://" + ln.Addr().String() + "/"); err != nil || ws.State() != websocket.StateActive {
+					fail("rehandshake", "after refused handshakes with %q the same Stream could not handshake with the ws:// address: err=%v state=%v", addr, err, ws.State())
+				}
+				_ = ws.CloseNextLayer()
+				_ = ln.Close()
+			}
+		}()
 	}
 
 	// 3. AsyncHandshake whose upgrade is refused (the server answers 400 and keeps the connection): the completion is posted to the
